@@ -94,6 +94,10 @@ CLAIMS["C13"] = dict(ref="§5 C13", tech="TLA+ model of the IDT (Idt.tla: Genera
     text="For every tested range TLC checks on the raw table bytes that exactly the non-reserved vectors of the range became present interrupt gates with the current CS, DPL 0, IST 0, pairwise distinct canonical stub addresses, and that all other gates are byte-identical; each installed stub is then entered like the CPU would (frame and error code pushed, jump to the decoded gate offset) and TLC checks: general handler called exactly once with index v, the pushed frame contents, an error code exactly on the error-code vectors with the pushed value, and for returning vectors execution resumes at the interrupted rip/rsp/rflags; iretq on a frame value lands at exactly its rip/rsp/rflags.",
     note=TB_CPU + " Frame contents are restricted to what ring 3 can return to (user CS/SS, IF=1, IOPL 0); each delivery runs in a forked child so that a crashing stub is data.")
 
+CLAIMS["C19"] = dict(ref="§5 C19", cat="exploration", tech="complete enumeration of the crate's named constants and of the small codecs' finite input domains, compared by TLC (Trace_Consts.tla) with an independently written architecture table (ArchConsts.tla)",
+    text="Not a state machine: every named flag/constant is enumerated at run time and TLC compares it with a table transcribed from the manuals by bit number (a constant the table does not know is reported as UNCHECKED, one the crate no longer yields as ABSENT - neither is a violation); all u8/u16 inputs of the small value types and the DR7 field combinations are enumerated and checked against the architectural field positions. The domain is finite and fully enumerated, so this is exhaustive exploration rather than model checking.",
+    note="Trusted: ArchConsts.tla (my transcription of the SDM/APM), TLC, the harness's enumeration. MSR numbers are private and observed as ECX of the trapped rdmsr.")
+
 NA_DEFAULT = "check under construction in this session (planned in DESIGN.md section 5); not yet claimed"
 
 m = {
@@ -124,7 +128,7 @@ for pid in IDS:
             "evidence_file": "/verif/evidence/%s.json" % pid,
             "replay_cmd_template": "./bin/check %s --replay {path}" % pid,
             "engine": "tlc-design + tlc-trace",
-            "level_claimed": {"category": "model_checking", "text": c["text"], "design_ref": "DESIGN.md " + c["ref"]},
+            "level_claimed": {"category": c.get("cat", "model_checking"), "text": c["text"], "design_ref": "DESIGN.md " + c["ref"]},
             "level_note": c["note"],
             "technique": c["tech"],
         })
